@@ -1,9 +1,9 @@
 package props
 
 import (
-	"time"
 	"google.golang.org/grpc/status"
 	"strings"
+	"time"
 
 	"context"
 	"fmt"
@@ -104,6 +104,11 @@ var c12Shapes = []c12Shape{
 		return &env.Rpc{Id: id, Header: env.ReqOpen(id, env.MBidi, tag).Header, Status: &goatorepo.ResponseStatus{Code: 3}}
 	}, opensMay: true},
 	{name: "empty-envelope", build: func(id uint64, tag string) *env.Rpc { return &env.Rpc{Id: id} }},
+	{name: "empty-body", build: func(id uint64, tag string) *env.Rpc {
+		r := env.ReqBody(id, env.MBidi, tag)
+		r.Body = &goatorepo.Body{} // a message that encodes to zero bytes is a message
+		return r
+	}, body: true},
 }
 
 // indices into c12Shapes used by the back-to-back ("burst") sequences
@@ -133,7 +138,7 @@ func c12(tier string) []*explore.Scenario {
 	out = append(out, c12Interference(1), c12MethodNames(), c12MethodGrammar())
 	out = append(out, c12ExpiredStream(true, 1), c12ExpiredStream(false, 2))
 	// the same sequences against a server with stats handlers / interceptors installed
-	for _, si := range []int{0, 13, 17, 20} { // valid-unary, open-bidi, body, reset
+	for _, si := range []int{0, 13, 17, 20, len(c12Shapes) - 1} { // valid-unary, open-bidi, body, reset, empty-body
 		out = append(out, withConfig([]string{"stats", "stats2+chain+services"}, c12Seq(si, 1, maxLen, 0))...)
 	}
 	out = append(out, withConfig([]string{"stats", "stats2+chain+services"}, c12Long("cycle"), c12ExpiredStream(true, 0))...)
